@@ -332,6 +332,12 @@ def w_rules(ctx):
         # ones it sends (C04.R4: the close task waits for room instead of try_send)
         c15.r9_client_tries_response_first(ctx)
         c04.r4_close_gating(ctx)
+        # W10: every stub call gets the server's value for *its* request: ids are reserved atomically (two parallel callers
+        # never share one), and a caller that gave up does not take the connection down for the others (= C03.R9)
+        from .common import request_ids_reserved_atomically
+        from . import c03
+        request_ids_reserved_atomically(ctx, "C17.W10")
+        c03.r9_gone_caller_is_not_a_connection_error(ctx)
         return w6_runtime_key_encoding(ctx)
     tr = ctx.tracer(follow_callers=False, follow_fields=False)
     traits = collect(F, tr)
